@@ -167,6 +167,7 @@ def r_functions(chk, prog, m):
         chk.touched(f)
         w = Walker(prog, f, view="unsigned", contracts={"array_list_expand_internal": _expand_contract()}, buf_fields={"array": "size"})
         R = {k: [0, []] for k in ("C07.R2", "C07.R4", "C07.R5", "C07.R6", "C07.inv")}
+        UND = []
 
         def bound(w, st, ptr, n, i, what, read=False):
             R["C07.R2"][0] += 1
@@ -242,12 +243,24 @@ def r_functions(chk, prog, m):
                             progress = True
                             break
                 if not w.entails(st, length - start):
-                    R["C07.R4"][1].append((i, "length grows from %r to %r but the slots from %r on are not all written on this path "
-                                           "(written ranges: %s): a later read returns an uninitialised pointer" % (l0, length, start, ranges)))
+                    looped = [r for r in ranges if any("#" in a for a in r[0].atoms())]
+                    if not looped and any(e[0] == "loop-writes" for e in st.events):
+                        looped = [(Lin({}, 0), const(1))]
+                    if looped:
+                        # slots written one at a time inside a loop (index = a loop variable): the covered range is not summarised
+                        UND.append((i, "length grows from %r to %r; some slots are written inside a loop (index %r), which this rule "
+                                       "does not summarise" % (l0, length, looped[0][0])))
+                    else:
+                        R["C07.R4"][1].append((i, "length grows from %r to %r but the slots from %r on are not all written on this path "
+                                               "(written ranges: %s): a later read returns an uninitialised pointer" % (l0, length, start, ranges)))
         w.on_instr = on_instr
         w.on_ret = on_ret
         w.run(_init)
         for rid, (n, bad) in R.items():
+            if rid == "C07.R4" and not bad and UND:
+                i, msg = UND[0]
+                chk.undecided(rid, fname, rid, i.locstr(), msg)
+                continue
             if bad:
                 i, msg = bad[0]
                 chk.refuted(rid, fname, rid, i.locstr(), msg)
